@@ -555,6 +555,70 @@ def rule_MP20(rep, prog):
         rep.unknown(rid, "fewer than 2 pick sites found in the stream / disk handlers (%d)" % n)
 
 
+def rule_OD21(rep, prog):
+    rid = rep.rule("C14-OD21", "the barrier queue stays closed while the barrier block runs, and operations that complete at once still queue behind a pending barrier: in the "
+                   "block of dispatch_io_barrier the resume of the barrier queue comes after the call of the client's barrier block, and the early-completion path of "
+                   "_dispatch_operation_create submits its done handler through channel->barrier_queue", floor=2)
+    n = 0
+    for fn in prog.all_functions():
+        if not fn.name.startswith("__dispatch_io_barrier_block_invoke"):
+            continue
+        res = calls_named(fn, "dispatch_resume")
+        user = [c for c in fn.all_insts() if c.op == "call" and not c.callee and c.d.get("icallee")]
+        if not res or not user:
+            continue
+        n += 1
+        rep.saw(fn)
+        early = [(r, u) for r in res for u in user if fn.inst_reaches(r, u)]
+        rep.require(rid, not early, (early[0][0].loc if early else res[0].loc), fn.name, "barrier-queue-resumed-before-barrier-block",
+                    "the block of dispatch_io_barrier resumes the barrier queue before it calls the client's barrier block: operations submitted after the barrier are "
+                    "enqueued, performed and delivered while the barrier block is still running", sample={"fn": fn.name})
+    fn = prog.fn("_dispatch_operation_create")
+    rep.saw(fn)
+    subs = [c for c in fn.all_insts() if c.op == "call" and c.callee in ("dispatch_async", "dispatch_async_f")]
+    for c in subs:
+        n += 1
+        rep.require(rid, fld_load(prog, fn, c.ops[0], "barrier_queue") is not None, c.loc, fn.name, "early-completion-bypasses-barrier-queue",
+                    "_dispatch_operation_create reports an immediately complete operation (zero length, or an error known at submission) without going through the "
+                    "channel's barrier queue: its done handler runs before a barrier submitted earlier has run", sample={"site": c.loc})
+    if n < 2:
+        rep.unknown(rid, "barrier block / early completion path not found (%d)" % n)
+
+
+def rule_AI23(rep, prog):
+    rid = rep.rule("C14-AI23", "the water marks stay ordered (low <= high): each setter compares the OTHER mark with the very value it is about to store (set_low_water raises "
+                   "high when high < new low; set_high_water lowers low when low > new high) - with low > high a full buffer is neither delivered nor sized, the next "
+                   "read asks for 0 bytes and the operation completes as if at end of file", floor=2)
+    n = 0
+    for name, mine, other in (("__dispatch_io_set_low_water_block_invoke", "low", "high"), ("__dispatch_io_set_high_water_block_invoke", "high", "low")):
+        fn = prog.fn(name, required=False)
+        if fn is None:
+            continue
+        def cap(o):
+            """(offset) of the block-literal capture a value is loaded from"""
+            i = fn.inst(o)
+            seen = 0
+            while i is not None and i.op in ("select", "zext", "trunc") and seen < 4:
+                seen += 1
+                i = fn.inst(i.ops[1] if i.op == "select" else i.ops[0])
+            if i is not None and i.op == "load" and i.d.get("ptr") and tuple(i.d["ptr"]["base"][:2]) == ("a", 0):
+                return i.d["ptr"].get("off")
+            return None
+        sts = [st for st in fn.all_insts() if st.op == "store" and mine in prog.fields(st) and other not in prog.fields(st)]
+        cmps = [t for t in fn.all_insts() if t.op == "icmp" and any(fn.inst(o) is not None and fn.inst(o).op == "load" and other in prog.fields(fn.inst(o)) for o in t.ops)]
+        if not sts or not cmps:
+            continue
+        n += 1
+        rep.saw(fn)
+        v = cap(sts[-1].ops[0])
+        ok = v is not None and all(any(cap(o) == v for o in t.ops) for t in cmps)
+        rep.require(rid, ok, cmps[0].loc, fn.name, "water-mark-compared-with-stale-value:%s" % mine,
+                    "%s adjusts the `%s` water mark by comparing it with something other than the new `%s` value it stores: after set_high_water(H) followed by "
+                    "set_low_water(L > H) the channel has low > high" % (fn.name, other, mine), sample={"fn": fn.name})
+    if n < 2:
+        rep.unknown(rid, "the two water-mark setter blocks were not both recognised (%d)" % n)
+
+
 def rule_TB10(rep, prog):
     rid = rep.rule("C14-TB10", "what an operation that completes early hands back: a read that failed reports no data, a write that did NOT fail reports no unwritten "
                    "data, a write that failed (e.g. the channel was stopped) reports all of its data as unwritten - at every early-completion site alike; a read "
@@ -687,6 +751,10 @@ def run(rep, tier="quick", srcdir=None, only=None):
         rule_AI19(rep, prog, srcdir)
     if want("C14-MP20"):
         rule_MP20(rep, prog)
+    if want("C14-OD21"):
+        rule_OD21(rep, prog)
+    if want("C14-AI23"):
+        rule_AI23(rep, prog)
     if want("C14-OD12"):
         rule_OD12(rep, prog)
     if want("C14-MP13"):
